@@ -197,6 +197,7 @@ def run_case(case, rng_seed):
         if step["pairs"] and nxt is cur:
             fails.append(("returned_self", "same object returned for a non-empty map"))
         fails += check_step(cur, nxt, [tuple(p) for p in step["pairs"]], rng, case.get("numeric", True))
+        fails += L.independence(cur, nxt, [tuple(p) for p in step["pairs"]], step["pass_as"], rng)
         cur = nxt
     if L.model_digest(m) != d0:
         fails.append(("original_model_mutated", "the zoo model changed"))
